@@ -34,35 +34,96 @@ func ruleC19(c *Ctx) {
 		return
 	}
 	c.useFn(sl)
-	tb := newTB(sl)
+	tb := newDeepTB(sl)
 	rets := returnsOf(sl)
 	if len(rets) != 1 || len(rets[0].Results) != 3 {
-		c.bad("TERM-TM", "SantaLucia:single result", sl.Pos(), fmt.Sprintf("SantaLucia has %d return sites; the formula must be computed on every call (a second return path, e.g. a cache, is not analysed)", len(rets)))
+		c.undecided("TERM-TM", "SantaLucia:single result", sl.Pos(), fmt.Sprintf("SantaLucia has %d return sites; the model reads one", len(rets)))
+		c.Floors["TERM-TM"] = 0
+		santaLuciaDepend(c, sl, tb, nil)
+		santaLuciaRest(c, "")
 		return
 	}
 	up := "call[strings.ToUpper](param[0])"
 	rc := "call[poly/transform.ReverseComplement](" + up + ")"
 	symCond := "binop[==](" + rc + ", " + up + ")"
 	last := "index(" + up + ", binop[-](call[builtin:len](" + up + "), const[1]))"
-	atCond := "(binop[==](const[65], " + last + ") || binop[==](const[84], " + last + "))"
 	dHv, dSv := rets[0].Results[1], rets[0].Results[2]
 
-	type found struct {
-		global string
-		cond   string
+	// the four kinds of sequence the penalties distinguish
+	type seqClass struct {
+		name     string
+		sym, lat bool
+		lastCh   int64
 	}
-	classify := func(v ssa.Value, fld string, name string) (pen map[string]string, nn []contrib, other []contrib) {
-		pen = map[string]string{} // cond -> global
+	classes := []seqClass{{"self-complementary, ends in A/T", true, true, 'T'}, {"self-complementary, ends in G/C", true, false, 'C'}, {"not self-complementary, ends in A/T", false, true, 'A'}, {"not self-complementary, ends in G/C", false, false, 'G'}}
+	// a self-complementarity test delegated to a helper that compares mirrored positions
+	symAtoms := map[string]bool{symCond: true}
+	eachInstr(sl, func(i ssa.Instruction) {
+		ifi, ok := i.(*ssa.If)
+		if !ok {
+			return
+		}
+		cl, ok := ifi.Cond.(*ssa.Call)
+		if !ok {
+			return
+		}
+		g := cl.Call.StaticCallee()
+		if g == nil || !inModule(g) || g.Blocks == nil || len(cl.Call.Args) != 1 || tb.T(cl.Call.Args[0]).String() != up || !loopCompares(g) {
+			return
+		}
+		c.useFn(g)
+		st, why := mirrorLoopState(g)
+		c.judge(st, "TERM-TM", "self-complementarity helper "+g.Name()+" compares every position with its mirror", g.Pos(), "for lengths 1..9 every position is compared with the complement of its mirror position", why)
+		if st == holds {
+			symAtoms[tb.T(cl).String()] = true
+		}
+	})
+	valuation := func(cl seqClass) func(*Term) (bool, bool) {
+		return func(t *Term) (bool, bool) {
+			if symAtoms[t.String()] {
+				return cl.sym, true
+			}
+			if t.isBin("==") {
+				for k := 0; k < 2; k++ {
+					if n, ok := t.Args[k].constInt(); ok && stripConv(t.Args[1-k]).String() == last {
+						return n == cl.lastCh, true
+					}
+				}
+			}
+			return false, false
+		}
+	}
+	table := func(cd *Cond) (string, bool) {
+		out := ""
+		for _, cl := range classes {
+			v, known := evalCond3(cd, valuation(cl))
+			if !known {
+				return "", false
+			}
+			if v {
+				out += "1"
+			} else {
+				out += "0"
+			}
+		}
+		return out, true
+	}
+	const always, onSym, onAT = "1111", "1100", "1010"
+	describe := map[string]string{always: "always", onSym: "iff self-complementary", onAT: "iff the last letter is A or T"}
+	type penalty struct {
+		global string
+		table  string
+		known  bool
+		cond   *Cond
+	}
+	classify := func(v ssa.Value, fld string) (pen []penalty, nn []contrib, other []contrib) {
 		for _, k := range additive(tb, v) {
 			t := k.T
 			switch {
 			case t.Op == "field" && t.Name == fld && t.Args[0].Op == "global" && !k.Neg && !k.InLoop:
-				cs := k.Cond.String()
-				if _, dup := pen[cs]; dup {
-					other = append(other, k)
-				}
-				pen[cs] = t.Args[0].Name
-			case t.Op == "field" && t.Name == fld && t.Args[0].Op == "lookup" && !k.Neg:
+				tab, known := table(k.Cond)
+				pen = append(pen, penalty{t.Args[0].Name, tab, known, k.Cond})
+			case t.Op == "field" && t.Name == fld && (t.Args[0].Op == "lookup" || t.Args[0].Op == "index") && !k.Neg:
 				nn = append(nn, k)
 			default:
 				other = append(other, k)
@@ -70,154 +131,297 @@ func ruleC19(c *Ctx) {
 		}
 		return
 	}
-	penH, nnH, otherH := classify(dHv, "H", "dH")
-	penS, nnS, otherS := classify(dSv, "S", "dS")
-	wantConds := []string{"true", symCond, atCond}
+	penH, nnH, otherH := classify(dHv, "H")
+	penS, nnS, otherS := classify(dSv, "S")
 	for _, pair := range []struct {
 		name string
-		pen  map[string]string
+		pen  []penalty
 	}{{"dH", penH}, {"dS", penS}} {
-		var got []string
-		for k := range pair.pen {
-			got = append(got, k)
+		st, why := holds, ""
+		seen := map[string]int{}
+		for _, p := range pair.pen {
+			switch {
+			case !p.known:
+				if st != broken {
+					st, why = unknown, "penalty "+p.global+" is added under "+short(p.cond.String())
+				}
+			case describe[p.table] == "":
+				var on []string
+				for k, cl := range classes {
+					if p.table[k] == '1' {
+						on = append(on, cl.name)
+					}
+				}
+				st, why = broken, "penalty "+p.global+" is added for {"+strings.Join(on, "; ")+"}; each penalty applies always, or exactly to self-complementary sequences, or exactly to sequences ending in A/T, independently of the others"
+			default:
+				seen[p.table]++
+			}
 		}
-		sort.Strings(got)
-		want := append([]string{}, wantConds...)
-		sort.Strings(want)
-		c.check(strings.Join(got, " ;; ") == strings.Join(want, " ;; "), "TERM-TM", pair.name+":penalties under {always, s==RC(s), last in {A,T}}", rets[0].Pos(),
-			"initiation always, symmetry iff the upper-cased sequence equals its reverse complement, terminal penalty iff the LAST letter is A or T",
-			"penalty terms are added under conditions ["+short(strings.Join(got, " ;; "))+"]; want always / "+short(symCond)+" / last letter A or T")
+		if st == holds {
+			for _, tb := range []string{always, onSym, onAT} {
+				switch {
+				case seen[tb] > 1:
+					st, why = broken, fmt.Sprintf("%d penalty terms are added %s", seen[tb], describe[tb])
+				case seen[tb] == 0 && len(pair.pen) == 3:
+					st, why = broken, "no penalty term is added "+describe[tb]
+				case seen[tb] == 0 && st == holds:
+					st, why = unknown, "no penalty term found that is added "+describe[tb]
+				}
+			}
+		}
+		c.judge(st, "TERM-TM", pair.name+":penalties under {always, s==RC(s), last in {A,T}}", rets[0].Pos(),
+			"initiation always, symmetry iff the upper-cased sequence equals its reverse complement, terminal penalty iff the LAST letter is A or T (decided on the four sequence classes)", why)
 	}
-	same := len(penH) == len(penS)
-	for k, g := range penH {
-		if penS[k] != g {
-			same = false
-		}
+	stP, whyP := holds, ""
+	byTabH, byTabS := map[string]string{}, map[string]string{}
+	for _, p := range penH {
+		byTabH[p.table] = p.global
+	}
+	for _, p := range penS {
+		byTabS[p.table] = p.global
 	}
 	distinct := map[string]bool{}
-	for _, g := range penH {
+	for tbl, g := range byTabH {
 		distinct[g] = true
+		if tbl == "" {
+			stP, whyP = unknown, "a penalty's condition was not evaluated"
+		} else if gs, ok := byTabS[tbl]; ok && gs != g {
+			stP, whyP = broken, "under the same condition dH takes its penalty from "+g+" and dS from "+gs
+		}
 	}
-	c.check(same && len(distinct) == 3, "TABLE-NN", "three penalties used consistently for dH and dS", rets[0].Pos(), "each of three distinct penalty values contributes its H to dH and its S to dS under the same condition", fmt.Sprintf("dH penalties %v vs dS penalties %v", penH, penS))
+	if stP == holds && (len(distinct) != 3 || len(byTabS) != 3) {
+		stP, whyP = unknown, fmt.Sprintf("dH penalties %v vs dS penalties %v", byTabH, byTabS)
+	}
+	c.judge(stP, "TABLE-NN", "three penalties used consistently for dH and dS", rets[0].Pos(), "each of three distinct penalty values contributes its H to dH and its S to dS under the same condition", whyP)
 	// salt term: only in dS
 	salt := "binop[*](binop[*](const[0.368], conv[float64](binop[-](call[builtin:len](" + up + "), const[1]))), call[math.Log](binop[+](binop[*](const[140], param[3]), param[2])))"
-	saltOK := len(otherS) == 1 && otherS[0].T.String() == salt && otherS[0].Cond.Op == "true" && !otherS[0].InLoop && !otherS[0].Neg
-	var oh []string
+	stSalt, whySalt := unknown, ""
+	var oh, os []string
 	for _, k := range otherH {
 		oh = append(oh, short(k.T.String()))
+		if k.T.contains(func(x *Term) bool { return x.isCall("math.Log") }) && len(opaqueParts(k.T, nil)) == 0 {
+			stSalt, whySalt = broken, "a salt-dependent term "+short(k.T.String())+" is added to dH: enthalpy must not depend on concentrations"
+		}
 	}
-	var os []string
 	for _, k := range otherS {
 		os = append(os, short(k.T.String()))
 	}
-	c.check(saltOK && len(otherH) == 0, "TERM-TM", "salt term 0.368*(len-1)*ln(Na+140*Mg) in dS only", rets[0].Pos(), "the salt correction is added once, unconditionally, to dS and nothing else is added to dH or dS",
-		fmt.Sprintf("extra dH terms %v; extra dS terms %v; want exactly the salt term in dS", oh, os))
-	// neighbour loop
-	nnOK := len(nnH) == 1 && len(nnS) == 1 && nnH[0].InLoop && nnS[0].InLoop
-	why := fmt.Sprintf("%d/%d nearest-neighbour lookups feed dH/dS, want 1/1 inside the loop", len(nnH), len(nnS))
+	if stSalt != broken {
+		switch {
+		case len(otherS) == 1 && len(otherH) == 0 && otherS[0].T.String() == salt:
+			if otherS[0].Cond.Op == "true" && !otherS[0].InLoop && !otherS[0].Neg {
+				stSalt = holds
+			} else if otherS[0].InLoop {
+				stSalt, whySalt = broken, "the salt correction is added inside a loop (once per iteration instead of once)"
+			} else {
+				whySalt = "the salt correction is added under " + short(otherS[0].Cond.String())
+			}
+		case len(otherS) == 1 && len(otherH) == 0:
+			if len(opaqueParts(otherS[0].T, vocabOf(salt))) == 0 && localDiff(otherS[0].T, salt) {
+				stSalt, whySalt = broken, "the salt correction is "+short(otherS[0].T.String())+"; want 0.368*(len-1)*ln(Na + 140*Mg)"
+			} else {
+				whySalt = "the extra dS term is " + short(otherS[0].T.String())
+			}
+		default:
+			whySalt = fmt.Sprintf("extra dH terms %v; extra dS terms %v", oh, os)
+		}
+	}
+	c.judge(stSalt, "TERM-TM", "salt term 0.368*(len-1)*ln(Na+140*Mg) in dS only", rets[0].Pos(), "the salt correction is added once, unconditionally, to dS and nothing else is added to dH or dS", whySalt)
+	// neighbour loop: windows [i, i+2) for i = 0..len-2, decided for lengths 2..12
+	stN, whyN := unknown, fmt.Sprintf("%d/%d nearest-neighbour lookups feed dH/dS, the model needs 1/1 inside the loop", len(nnH), len(nnS))
 	var nnTable string
-	if nnOK {
+	if len(nnH) == 1 && len(nnS) == 1 && nnH[0].InLoop && nnS[0].InLoop {
 		lk := nnH[0].T.Args[0]
-		if nnS[0].T.Args[0].String() != lk.String() {
-			nnOK = false
-			why = "dH and dS use different table lookups"
-		} else if lk.Args[0].Op != "global" || lk.Args[1].Op != "slice" || lk.Args[1].Args[0].String() != up {
-			nnOK = false
-			why = "lookup key is not a window of the upper-cased sequence: " + short(lk.String())
-		} else {
+		switch {
+		case nnS[0].T.Args[0].String() != lk.String():
+			stN, whyN = broken, "dH and dS look up different table entries: "+short(lk.String())+" vs "+short(nnS[0].T.Args[0].String())
+		case lk.Op != "lookup" || lk.Args[0].Op != "global" || lk.Args[1].Op != "slice":
+			whyN = "the neighbour lookup is " + short(lk.String())
+		case lk.Args[1].Args[0].String() != up:
+			stN, whyN = stateOf(false, vocabOf(up), lk.Args[1].Args[0]), "neighbour windows are cut from "+short(lk.Args[1].Args[0].String())+", not from the upper-cased sequence"
+		default:
 			nnTable = lk.Args[0].Name
 			lo, hi := lk.Args[1].Args[1], lk.Args[1].Args[2]
-			hb, hk := hi.linear()
-			lb, lkk := lo.linear()
-			if hb == nil || lb == nil || hb.String() != lb.String() || hk-lkk != 2 {
-				nnOK = false
-				why = "window is not [i, i+2)"
-			} else {
-				// i = phi(0, i+1)
-				ph, isPhi := lb.V.(*ssa.Phi)
-				if !isPhi || lkk != 0 {
-					nnOK = false
-					why = "window start is not the loop counter"
-				} else {
-					init0, step1 := false, false
-					for _, e := range ph.Edges {
-						et := tb.T(e)
-						if et.isConst("0") {
-							init0 = true
-						} else if b, k := et.linear(); b != nil && b.V == ssa.Value(ph) && k == 1 {
-							step1 = true
-						}
+			hdr := enclosingLoopHeader(nnH[0].At.Block())
+			if hdr == nil {
+				break
+			}
+			ls, why := newLoopSim(tb, hdr)
+			if ls == nil {
+				whyN = why
+				break
+			}
+			stN = holds
+			for n := int64(2); n <= 12 && stN == holds; n++ {
+				want := int64(0)
+				ok, why := ls.run(n, nil, n+5, func(env map[string]int64) (bool, string) {
+					l, ok1 := ls.evalInt(lo, env, 0)
+					h, ok2 := ls.evalInt(hi, env, 0)
+					switch {
+					case !ok1 || !ok2:
+						return false, "?window bounds not evaluable"
+					case h > n || l < 0:
+						return false, fmt.Sprintf("for a sequence of %d letters the loop reads the window [%d:%d], beyond the sequence", n, l, h)
+					case l != want || h != want+2:
+						return false, fmt.Sprintf("for a sequence of %d letters the loop reads the window [%d:%d] where [%d:%d] is due: adjacent pairs are skipped or repeated", n, l, h, want, want+2)
 					}
-					// loop guard in the phi's block
-					guardOK := false
-					if ifi, ok := ph.Block().Instrs[len(ph.Block().Instrs)-1].(*ssa.If); ok {
-						g := tb.T(ifi.Cond)
-						if g.Op == "binop" && (g.Name == "<" || g.Name == "<=") {
-							l, k1 := g.Args[0].linear()
-							r, k2 := g.Args[1].linear()
-							if l != nil && r != nil && l.V == ssa.Value(ph) && r.String() == "call[builtin:len]("+up+")" {
-								d := k1 - k2
-								guardOK = (g.Name == "<" && d == 1) || (g.Name == "<=" && d == 2)
-							}
-						}
-					}
-					if !init0 || !step1 || !guardOK {
-						nnOK = false
-						why = fmt.Sprintf("neighbour loop does not visit exactly i = 0..len-2 (starts at 0=%v, steps by 1=%v, guard i+1<len=%v)", init0, step1, guardOK)
-					}
+					want++
+					return true, ""
+				})
+				switch {
+				case !ok && (strings.HasPrefix(why, "?") || strings.Contains(why, "not evaluable") || strings.Contains(why, "iteration bound")):
+					stN, whyN = unknown, strings.TrimPrefix(why, "?")
+				case !ok:
+					stN, whyN = broken, why
+				case want != n-1:
+					stN, whyN = broken, fmt.Sprintf("for a sequence of %d letters %d adjacent pairs are summed; there are %d", n, want, n-1)
 				}
 			}
 		}
 	}
-	c.check(nnOK, "TERM-TM", "neighbour loop visits windows [i,i+2) for i=0..len-2", rets[0].Pos(), "every adjacent pair once, none beyond the end", why)
+	c.judge(stN, "TERM-TM", "neighbour loop visits windows [i,i+2) for i=0..len-2", rets[0].Pos(), "every adjacent pair once, none beyond the end (decided for lengths 2..12)", whyN)
 	// Tm formula
 	tm := tb.T(rets[0].Results[0])
-	tmOK := false
-	whyTm := "Tm is " + short(tm.String())
-	if tm.isBin("-") && tm.Args[1].isConst("273.15") && tm.Args[0].isBin("/") {
+	stTm, whyTm := unknown, "Tm is "+short(tm.String())
+	if tm.isBin("-") && tm.Args[0].isBin("/") {
 		num, den := tm.Args[0].Args[0], tm.Args[0].Args[1]
-		numOK := num.isBin("*") && ((num.Args[0].isConst("1000") && num.Args[1].V == dHv) || (num.Args[1].isConst("1000") && num.Args[0].V == dHv))
-		denOK := false
+		var problems, unknowns []string
+		if k, ok := tm.Args[1].constFloat(); !ok || k != 273.15 {
+			if ok {
+				problems = append(problems, fmt.Sprintf("Kelvin offset %v, want 273.15", k))
+			} else {
+				unknowns = append(unknowns, "offset "+short(tm.Args[1].String()))
+			}
+		}
+		numOK := false
+		if num.isBin("*") {
+			for k := 0; k < 2; k++ {
+				if num.Args[1-k].V == dHv {
+					if f, ok := num.Args[k].constFloat(); ok {
+						numOK = true
+						if f != 1000 {
+							problems = append(problems, fmt.Sprintf("dH is scaled by %v, want 1000 (kcal -> cal)", f))
+						}
+					}
+				}
+			}
+		}
+		if !numOK {
+			unknowns = append(unknowns, "numerator "+short(num.String()))
+		}
 		var fTerm *Term
+		denOK := false
 		if den.isBin("+") {
 			for k := 0; k < 2; k++ {
 				a, b := den.Args[k], den.Args[1-k]
 				if a.V == dSv && b.isBin("*") {
 					for j := 0; j < 2; j++ {
 						r, lg := b.Args[j], b.Args[1-j]
-						if r.isConst("1.9872") && lg.isCall("math.Log") && lg.Args[0].isBin("/") && lg.Args[0].Args[0].isParam(1) {
+						if rf, ok := r.constFloat(); ok && lg.isCall("math.Log") && lg.Args[0].isBin("/") {
 							denOK = true
+							if rf != 1.9872 {
+								problems = append(problems, fmt.Sprintf("gas constant %v, want 1.9872", rf))
+							}
+							if !lg.Args[0].Args[0].isParam(1) {
+								if lg.Args[0].Args[0].Op == "param" {
+									problems = append(problems, "the logarithm is taken of "+lg.Args[0].Args[0].String()+"/f, not of the oligo concentration")
+								} else {
+									unknowns = append(unknowns, "log argument "+short(lg.Args[0].String()))
+								}
+							}
 							fTerm = lg.Args[0].Args[1]
 						}
 					}
 				}
 			}
 		}
-		fOK := false
+		if !denOK {
+			unknowns = append(unknowns, "denominator "+short(den.String()))
+		}
 		if fTerm != nil {
-			if ph, ok := fTerm.V.(*ssa.Phi); ok && len(ph.Edges) == 2 {
-				fOK = true
-				for i, e := range ph.Edges {
-					pc := pathCond(tb, sl.Blocks[0], ph.Block().Preds[i])
-					et := tb.T(e)
-					if pc.implies(symCond, false) {
-						fOK = fOK && et.isConst("1")
-					} else if pc.implies(symCond, true) {
-						fOK = fOK && et.isConst("4")
-					} else {
-						fOK = false
-					}
+			for _, sym := range []bool{true, false} {
+				want := 4.0
+				if sym {
+					want = 1.0
+				}
+				leaf, ok := evalPhiUnder(tb, fTerm, valuation(seqClass{"", sym, false, 'C'}))
+				f, isC := leaf.constFloat()
+				switch {
+				case !ok || !isC:
+					unknowns = append(unknowns, "symmetry factor "+short(fTerm.String()))
+				case f != want:
+					problems = append(problems, fmt.Sprintf("the symmetry factor f is %v for %s sequences, want %v", f, map[bool]string{true: "self-complementary", false: "non-self-complementary"}[sym], want))
 				}
 			}
 		}
-		tmOK = numOK && denOK && fOK
-		whyTm = fmt.Sprintf("numerator dH*1000=%v; denominator dS + 1.9872*ln(C/f)=%v; f = 1 iff self-complementary else 4=%v", numOK, denOK, fOK)
+		switch {
+		case len(problems) > 0:
+			stTm, whyTm = broken, strings.Join(problems, "; ")
+		case len(unknowns) > 0:
+			stTm, whyTm = unknown, strings.Join(dedupe(unknowns), "; ")
+		default:
+			stTm = holds
+		}
 	}
-	c.check(tmOK, "TERM-TM", "Tm = dH*1000/(dS + R*ln(C/f)) - 273.15", rets[0].Pos(), "with R = 1.9872 and f = 1 on the s==RC(s) branch, 4 otherwise; dH and dS are the returned values", whyTm)
+	c.judge(stTm, "TERM-TM", "Tm = dH*1000/(dS + R*ln(C/f)) - 273.15", rets[0].Pos(), "with R = 1.9872 and f = 1 for self-complementary sequences, 4 otherwise; dH and dS are the returned values", whyTm)
+	santaLuciaDepend(c, sl, tb, dHv)
+	santaLuciaRest(c, nnTable)
+}
 
+// evalPhiUnder resolves a value that is assigned in branches (a non-cyclic phi) under a valuation of
+// the branch conditions: the leaf chosen, or ok=false if a needed condition is open.
+func evalPhiUnder(tb *TermBuilder, t *Term, val func(*Term) (bool, bool)) (*Term, bool) {
+	for depth := 0; depth < 6; depth++ {
+		if t.Op != "phi" || t.Cyc {
+			return t, true
+		}
+		ph, ok := t.V.(*ssa.Phi)
+		if !ok || ph.Parent() != tb.F {
+			return t, false
+		}
+		dom := ph.Block().Idom()
+		if dom == nil {
+			return t, false
+		}
+		var next *Term
+		for k, e := range ph.Edges {
+			pred := ph.Block().Preds[k]
+			if !dom.Dominates(pred) {
+				return t, false
+			}
+			ec := pathCond(tb, dom, pred)
+			if ifi, ok := pred.Instrs[len(pred.Instrs)-1].(*ssa.If); ok && len(pred.Succs) == 2 && pred.Succs[0] != pred.Succs[1] {
+				a := condOfBool(tb, ifi.Cond, 0)
+				if pred.Succs[0] == ph.Block() {
+					ec = cAnd(ec, a)
+				} else {
+					ec = cAnd(ec, cNot(a))
+				}
+			}
+			v, known := evalCond3(ec, val)
+			if !known {
+				return t, false
+			}
+			if v {
+				next = tb.T(e)
+			}
+		}
+		if next == nil {
+			return t, false
+		}
+		t = next
+	}
+	return t, false
+}
+
+func santaLuciaDepend(c *Ctx, sl *ssa.Function, tb *TermBuilder, dHv ssa.Value) {
 	// DEPEND
 	concInDH := false
-	for _, k := range additive(tb, dHv) {
+	var dHc []contrib
+	if dHv != nil {
+		dHc = additive(tb, dHv)
+	}
+	for _, k := range dHc {
 		if k.T.contains(func(x *Term) bool { return x.isParam(1) || x.isParam(2) || x.isParam(3) }) {
 			concInDH = true
 		}
@@ -227,11 +431,37 @@ func ruleC19(c *Ctx) {
 			}
 		}
 	}
-	c.check(!concInDH, "DEPEND", "dH independent of concentrations", rets[0].Pos(), "no concentration parameter occurs in any dH contribution or its condition", "a concentration parameter flows into dH")
+	c.check(!concInDH, "DEPEND", "dH independent of concentrations", sl.Pos(), "no concentration parameter occurs in any dH contribution or its condition", "a concentration parameter flows into dH")
 	rawUse := rawParamUses(tb, sl, 0, "strings.ToUpper")
-	c.check(len(rawUse) == 0, "DEPEND", "sequence used only through ToUpper", sl.Pos(), "the raw sequence parameter is only ever the operand of strings.ToUpper", "raw (not upper-cased) sequence used by: "+strings.Join(rawUse, ", "))
+	var rawBad, rawUnknown []string
+	for _, u := range rawUse {
+		switch {
+		case u == "builtin:len" || u == "strings.ToLower":
+		case strings.HasPrefix(u, "poly/primers."):
+			rawUnknown = append(rawUnknown, u)
+		default:
+			rawBad = append(rawBad, u)
+		}
+	}
+	switch {
+	case len(rawBad) > 0:
+		c.bad("DEPEND", "sequence used only through ToUpper", sl.Pos(), "the sequence as typed (not upper-cased) is used by: "+strings.Join(rawBad, ", ")+": lower-case input changes the result (e.g. a lower-case self-complementary oligo is not recognised as such)")
+	case len(rawUnknown) > 0:
+		c.undecided("DEPEND", "sequence used only through ToUpper", sl.Pos(), "the raw sequence is handed to "+strings.Join(rawUnknown, ", "))
+	default:
+		c.ok("DEPEND", "sequence used only through ToUpper", sl.Pos(), "the raw sequence parameter is only ever the operand of strings.ToUpper")
+	}
 
+}
+
+func santaLuciaRest(c *Ctx, nnTable string) {
+	w := c.W
+	sl := w.fn("primers", "SantaLucia")
+	up := "call[strings.ToUpper](param[0])"
 	// TABLE-NN
+	if nnTable == "" {
+		c.undecided("TABLE-NN", "16 dinucleotides, strand-symmetric", sl.Pos(), "the nearest-neighbour table was not identified (no map lookup keyed by a 2-letter window)")
+	}
 	if nnTable != "" {
 		name := nnTable[strings.LastIndex(nnTable, ".")+1:]
 		p := w.pkg("primers")
@@ -243,7 +473,7 @@ func ruleC19(c *Ctx) {
 			}
 		}
 		if av == nil || av.Kind != "comp" {
-			c.bad("TABLE-NN", "nearest-neighbour table", sl.Pos(), "table "+name+" is not a single composite literal")
+			c.undecided("TABLE-NN", "nearest-neighbour table", sl.Pos(), "table "+name+" is not a single composite literal")
 		} else {
 			vals := map[string][2]float64{}
 			bad := []string{}
@@ -313,24 +543,34 @@ func ruleC19(c *Ctx) {
 	checkReturnIs(c, "TERM", "MeltingTemp=SantaLucia(s,500e-9,50e-3,0)[0]", w.fn("primers", "MeltingTemp"), 0, "extract[0](call[poly/primers.SantaLucia](param[0], const[5e-07], const[0.05], const[0]))", "defaults 500 nM oligo, 50 mM sodium, no magnesium; first result")
 	if md := w.fn("primers", "MarmurDoty"); md != nil {
 		c.useFn(md)
-		t, _, ok := singleReturnTerm(md, 0)
-		good := false
-		whyM := "several returns"
-		if ok {
-			coefs, k, _ := linearForm(t)
+		st, whyM := unknown, "several returns"
+		if alts := resultAlts(newDeepTB(md), md, 0); len(alts) == 1 {
+			coefs, k, _ := linearForm(alts[0].T)
 			want := map[string]float64{}
 			for l, cf := range map[string]float64{"A": 2, "T": 2, "C": 4, "G": 4} {
 				want[`call[strings.Count](`+up+`, const["`+l+`"])`] = cf
 			}
-			good = k == -7 && len(coefs) == 4
+			recognised := len(coefs) > 0
+			for kk := range coefs {
+				if !strings.HasPrefix(kk, "call[strings.Count]("+up+", const[") {
+					recognised = false
+				}
+			}
+			good := k == -7 && len(coefs) == 4
 			for kk, v := range want {
 				if coefs[kk] != v {
 					good = false
 				}
 			}
 			whyM = fmt.Sprintf("linear form %v %+g; want 2A+2T+4C+4G-7 over counts of the upper-cased input", coefs, k)
+			switch {
+			case good:
+				st = holds
+			case recognised:
+				st = broken
+			}
 		}
-		c.check(good, "TERM", "MarmurDoty=2(A+T)+4(C+G)-7", md.Pos(), "coefficients 2,2,4,4 and constant -7 over strings.Count(ToUpper(s), letter)", short(whyM))
+		c.judge(st, "TERM", "MarmurDoty=2(A+T)+4(C+G)-7", md.Pos(), "coefficients 2,2,4,4 and constant -7 over strings.Count(ToUpper(s), letter)", short(whyM))
 	} else {
 		c.missing("TERM", "MarmurDoty", "primers.MarmurDoty")
 	}
